@@ -504,6 +504,9 @@ fn check_w1(ctx: &Ctx, worker: usize, case: &Case) -> Outcome {
             bad.push("under 2>&1 the diagnostic is not after the output so far".to_string());
         }
     }
+    if case.world.merged && !r.seam_ok {
+        bad.push("under 2>&1 the shared sink does not hold the output so far followed by the diagnostic (bytes were overwritten or reordered)".to_string());
+    }
     if bad.is_empty() {
         if let Some(d) = oracle::check_diag_after_output(&r) {
             bad.push(d);
@@ -724,6 +727,9 @@ fn check_w2(ctx: &Ctx, worker: usize, case: &Case) -> Outcome {
     let mut bad: Vec<String> = vec![];
     if r.status != Status::Exit(103) {
         bad.push(format!("exit status {} instead of 103", r.status.render()));
+    }
+    if case.world.merged && !r.seam_ok {
+        bad.push("under 2>&1 the shared sink does not hold the output so far followed by the diagnostic (bytes were overwritten or reordered)".to_string());
     }
     // stdout: prefix of the model output, covering every completed print
     if !w2.stdout.starts_with(&r.stdout) {
